@@ -60,7 +60,7 @@ def shears(draw, max_steps=4, max_k=3):
 
 
 @st.composite
-def cell_descs(draw, lo=0.5, hi=30.0, kinds=("orth", "tric", "sheared", "needle"), rotate=True, allow_lefthanded=True):
+def cell_descs(draw, lo=0.5, hi=30.0, kinds=("orth", "tric", "sheared", "needle", "special"), rotate=True, allow_lefthanded=True):
     """Descriptor of a non-singular cell: dict(kind, par, shear, quat, lefthanded)."""
     kind = draw(st.sampled_from(list(kinds)))
     if kind == "needle":
@@ -73,6 +73,15 @@ def cell_descs(draw, lo=0.5, hi=30.0, kinds=("orth", "tric", "sheared", "needle"
         L = [draw(ffloat(lo, hi)) for _ in range(3)]
     if kind == "orth":
         ang = [90.0, 90.0, 90.0]
+    elif kind == "special":
+        # crystal-system shaped cells: some angles exactly 90 / 120 / 60 degrees, some generic (hexagonal, monoclinic, ...)
+        ang = [draw(st.sampled_from([90.0, 120.0, 90.0, 60.0, None])) for _ in range(3)]
+        ang = [a if a is not None else draw(ffloat(65.0, 115.0)) for a in ang]
+        ca, cb, cg = (math.cos(math.radians(a)) for a in ang)
+        if 1.0 - ca * ca - cb * cb - cg * cg + 2.0 * ca * cb * cg < 0.05:      # (near-)degenerate combination such as 120/120/120
+            ang = [90.0, 90.0, ang[2]]
+        if draw(st.booleans()):
+            L[1] = L[0]                                                          # a = b as in tetragonal / hexagonal cells
     else:
         ang = [draw(ffloat(65.0, 115.0)) for _ in range(3)]
     d = {"kind": kind, "par": L + ang}
